@@ -20,8 +20,10 @@ What is modelled from observation of the real output (`serde_json::to_string` of
   `"Variant"` on output and `"Variant"` or `{"Variant":null}` on input;
 * integers: a JSON integer literal in the range of the Rust type; `-0`, literals with a fraction or exponent and
   integers outside `i64::MIN..=u64::MAX` are floating point to `serde_json` (`Json.flt`) and refused;
-* `String` accepts every JSON string, `&str` (used by `as_xmr::vec`) only strings whose JSON text has no escape
-  sequence (`Json.str` vs `Json.strEsc`: serde_json hands out an escaped string as owned, not borrowed).
+* `String` accepts every JSON string; a borrowed `&str` only strings whose JSON text has no escape sequence (`Json.str`
+  vs `Json.strEsc`: serde_json hands out an escaped string as owned, not borrowed). Since the fix "as_xmr::vec
+  deserialisers read owned strings" no deserialiser of the library asks for `&str` any more (before it, `as_xmr::vec`
+  did, and so refused escaped strings and everything a non-borrowing deserialiser such as `from_reader` fed it).
 Strings are their UTF-8 bytes, as in `Model/AmountText.lean` and `Model/Address.lean`. -/
 namespace Monero
 
@@ -67,7 +69,7 @@ def readString : Json → Option Bytes
   | .str s => some s
   | .strEsc s => some s
   | _ => none
-/-- `<&str>::deserialize` -/
+/-- `<&str>::deserialize` (kept for reference: no longer used by any reader below) -/
 def readBorrowedStr : Json → Option Bytes
   | .str s => some s
   | _ => none
@@ -484,14 +486,9 @@ def amtOptFromJson (signed : Bool) (e : AmtEnc) : Json → Option (Option Int) :
 
 /-- `slice::serialize` -/
 def amtVecJ (signed : Bool) (e : AmtEnc) (xs : List Int) : Json := .arr (xs.map (amtJ signed e))
-/-- one element of `vec::deserialize_[signed_]amount`: `next_element::<u64|i64>()` resp. `next_element::<&str>()` followed
-by `from_str_in` — a BORROWED string -/
-def amtElemFromJson (signed : Bool) : AmtEnc → Json → Option Int
-  | .pico, j => amtFromJson signed .pico j
-  | .xmr, j =>
-    match readBorrowedStr j with
-    | none => none
-    | some s => (AmtText.fromStrIn signed s .Monero).toOption
+/-- one element of `vec::deserialize_[signed_]amount`: `next_element::<u64|i64>()` resp. `next_element::<String>()`
+followed by `from_str_in(&amt, Monero)` — an OWNED string, i.e. exactly the reader of a single amount -/
+def amtElemFromJson (signed : Bool) (e : AmtEnc) (j : Json) : Option Int := amtFromJson signed e j
 def amtVecFromJson (signed : Bool) (e : AmtEnc) : Json → Option (List Int)
   | .arr xs => mapOpt (amtElemFromJson signed e) xs
   | _ => none
